@@ -17,6 +17,8 @@ _SUFFIX = "" if REPO == "/repo" else "-" + hashlib.sha256(REPO.encode()).hexdige
 WVH = os.path.join(BUILD, "harness-target" + _SUFFIX, "debug", "wvh")
 WVM = os.path.join(LEAN, ".lake", "build", "bin", "wvm")
 ENGINE = os.path.join(BUILD, "repo-target" + _SUFFIX, "release", "walleye")
+# the same sources built WITH the hooks: used only for the state trace of the UCI loop (hook H5)
+ENGINE_TRACE = os.path.join(BUILD, "repo-target-trace" + _SUFFIX, "release", "walleye")
 NCPU = os.cpu_count() or 4
 
 ALLOWED_AXIOMS = {"propext", "Classical.choice", "Quot.sound"}
@@ -41,6 +43,7 @@ class BuildState:
         self.translator_error = None
         self.harness_error = None
         self.engine_error = None
+        self.trace_engine_error = None
         self.lean_errors = {}      # module -> error text
         self.axioms = {}           # theorem -> [axioms]
         self.forbidden = []        # textual scan hits
@@ -79,6 +82,24 @@ def build_engine(bs):
         bs.engine_error = (r.stderr or r.stdout)[-4000:]
         return False
     return True
+
+
+def build_engine_trace(bs):
+    """release binary with --cfg walleye_verif (hook H5: WALLEYE_VERIF_TRACE prints the loop state)"""
+    r = sh(["cargo", "build", "--release", "--offline"], cwd=REPO,
+           env={"CARGO_TARGET_DIR": os.path.join(BUILD, "repo-target-trace" + _SUFFIX), "RUSTFLAGS": "--cfg walleye_verif"})
+    if r.returncode != 0:
+        bs.trace_engine_error = (r.stderr or r.stdout)[-4000:]
+        return False
+    return True
+
+
+def run_model_only(lines):
+    """ops that only the model driver answers (e.g. `sess`); returns the M lines"""
+    ol, rc, err = _run_lines([WVM, "run"], lines)
+    if len(ol) != 2 * len(lines):
+        raise RuntimeError("model driver produced %d lines for %d ops (rc=%s) %s" % (len(ol), len(lines), rc, err[-300:]))
+    return [ol[2 * i][2:] for i in range(len(lines))]
 
 
 def run_translator(bs):
